@@ -8,10 +8,16 @@ package main
 //       beh p plain, x panics, a calls AddSink, s calls AddSyncSink, g calls GetStats). ops: e<v> Emit row with value v
 //       (v >= 0 passes WHERE, -1 is filtered, -7 makes a user function panic), y<v> EmitSync, A AddSink(plain),
 //       B AddSyncSink(plain), G GetStats, T TriggerWindow, X Stop. obs: per op <sink-begins>:<r> with r = 1 returned /
-//       0 refused ("stream is stopped") / - not applicable; then gr:<base>:<final>.
+//       0 refused ("stream is stopped") / - not applicable; an X op adds :<async>/<sync> = one digit per sink registered
+//       before that Stop (registration order): how often the Stop itself made it run (the MATCH_RECOGNIZE flush);
+//       then gr:<base>:<final>. kind cepopen = PATTERN (A+): v >= 0 extends the open match, v < 0 closes and reports it.
 //   C18 R <kind> <strategy> <seed> # <event trace>
 //       concurrent Emit/EmitSync/AddSink/GetStats/TriggerWindow/Stop from a seeded plan; events sb:j sr:j:ms kb:f ke yb:j ye:j:r
 //       to gr:base:final (see Spec/LifecycleSpec.v).
+//   C18 P <strategy> <workers> <poolcap> <rows> # <event trace>
+//       saturated sink pool: every worker is inside a (harness-gated) sink and the task queue is full, so further results
+//       take submitSinkTask's overflow branch; Stop is called while these invocations are in progress and they are released
+//       one by one in the order in which they began. Same events and monitor as R.
 //   C18 L # <event trace>   two overlapping Stop calls (documents F18c).
 
 import (
@@ -68,6 +74,11 @@ type c18Trace struct {
 	inStop map[uint64]bool
 	begins int64
 	ends   int64
+	// per-sink accounting (scripts): invocation count of every sink built by mkSink, and the ids of the sinks
+	// registered through addSink in registration order (= the order of s.sinks / s.syncSinks)
+	cnt      []int64
+	asyncIDs []int
+	syncIDs  []int
 }
 
 func newC18Trace() *c18Trace { return &c18Trace{inStop: map[uint64]bool{}} }
@@ -76,9 +87,10 @@ func (t *c18Trace) add(s string) {
 	t.ev = append(t.ev, s)
 	t.mu.Unlock()
 }
-func (t *c18Trace) sinkBegin() {
+func (t *c18Trace) sinkBegin(id int) {
 	g := gid()
 	t.mu.Lock()
+	t.cnt[id]++
 	f := 0
 	if t.inStop[g] {
 		f = 1
@@ -124,8 +136,47 @@ func (t *c18Trace) emitSync(s *streamsql.Streamsql, j int, row map[string]any) {
 
 // mkSink builds a user sink with the given behaviour.
 func (t *c18Trace) mkSink(s *streamsql.Streamsql, beh byte, slow time.Duration) func([]map[string]any) {
+	f, _ := t.mkSinkID(s, beh, slow)
+	return f
+}
+
+// addSink registers a sink and remembers its position in the instance's sink list.
+func (t *c18Trace) addSink(s *streamsql.Streamsql, isSync bool, beh byte, slow time.Duration) {
+	f, id := t.mkSinkID(s, beh, slow)
+	t.mu.Lock()
+	if isSync {
+		t.syncIDs = append(t.syncIDs, id)
+	} else {
+		t.asyncIDs = append(t.asyncIDs, id)
+	}
+	t.mu.Unlock()
+	if isSync {
+		s.AddSyncSink(f)
+	} else {
+		s.AddSink(f)
+	}
+}
+
+// perSink returns the current invocation counts of the registered sinks, async list then sync list.
+func (t *c18Trace) perSink() (a, b []int64) {
+	t.mu.Lock()
+	defer t.mu.Unlock()
+	for _, id := range t.asyncIDs {
+		a = append(a, t.cnt[id])
+	}
+	for _, id := range t.syncIDs {
+		b = append(b, t.cnt[id])
+	}
+	return
+}
+
+func (t *c18Trace) mkSinkID(s *streamsql.Streamsql, beh byte, slow time.Duration) (func([]map[string]any), int) {
+	t.mu.Lock()
+	id := len(t.cnt)
+	t.cnt = append(t.cnt, 0)
+	t.mu.Unlock()
 	return func(rows []map[string]any) {
-		t.sinkBegin()
+		t.sinkBegin(id)
 		defer t.sinkEnd()
 		if slow > 0 {
 			time.Sleep(slow)
@@ -134,19 +185,21 @@ func (t *c18Trace) mkSink(s *streamsql.Streamsql, beh byte, slow time.Duration) 
 		case 'x':
 			panic("c18 sink panic")
 		case 'a':
-			s.AddSink(t.mkSink(s, 'p', 0))
+			t.addSink(s, false, 'p', 0)
 		case 's':
-			s.AddSyncSink(t.mkSink(s, 'p', 0))
+			t.addSink(s, true, 'p', 0)
 		case 'g':
 			_ = s.GetStats()
 		}
-	}
+	}, id
 }
 
 var c18Kinds = map[string]string{
 	"direct":    "SELECT id, v FROM stream WHERE c18boom(v) >= 0",
 	"analytic":  "SELECT id, lag(v) AS pv FROM stream WHERE c18boom(v) >= 0",
 	"cep":       "SELECT * FROM stream MATCH_RECOGNIZE (ORDER BY ts MEASURES A.id AS aid ONE ROW PER MATCH PATTERN (A B+) DEFINE A AS v >= 0, B AS v >= 0)",
+	// an unclosed greedy A+: rows with v >= 0 extend the open match, a row with v < 0 closes and reports it, Stop flushes it
+	"cepopen": "SELECT * FROM stream MATCH_RECOGNIZE (ORDER BY ts MEASURES COUNT(*) AS n ONE ROW PER MATCH PATTERN (A+) DEFINE A AS v >= 0)",
 	"tumbling":  "SELECT count(*) AS c, max(c18boom(v)) AS m FROM stream WHERE v >= 0 OR v < -5 GROUP BY TumblingWindow('20ms')",
 	"sliding":   "SELECT count(*) AS c, max(c18boom(v)) AS m FROM stream WHERE v >= 0 OR v < -5 GROUP BY SlidingWindow('40ms','20ms')",
 	"session":   "SELECT count(*) AS c, max(c18boom(v)) AS m FROM stream WHERE v >= 0 OR v < -5 GROUP BY SessionWindow('20ms')",
@@ -218,13 +271,13 @@ type c18Script struct {
 	ops              []string
 }
 
-func (t *c18Trace) settle() {
+func (t *c18Trace) settle(s *streamsql.Streamsql) {
 	stable := 0
 	last := int64(-1)
 	for i := 0; i < 400 && stable < 8; i++ {
 		time.Sleep(3 * time.Millisecond)
 		b, e := atomic.LoadInt64(&t.begins), atomic.LoadInt64(&t.ends)
-		if b == e && b == last {
+		if b == e && b == last && s.GetStats()["data_chan_len"] == 0 {
 			stable++
 		} else {
 			stable = 0
@@ -241,15 +294,26 @@ func runC18Script(sc c18Script, countGoroutines bool) (string, error) {
 	}
 	t := newC18Trace()
 	for _, sk := range sc.sinks {
-		if sk[0] == 'a' {
-			s.AddSink(t.mkSink(s, sk[1], 0))
-		} else {
-			s.AddSyncSink(t.mkSink(s, sk[1], 0))
+		t.addSink(s, sk[0] == 's', sk[1], 0)
+	}
+	digits := func(before, after []int64) string {
+		if len(before) == 0 {
+			return "-"
 		}
+		var sb strings.Builder
+		for k := range before { // sinks registered before the call began
+			d := after[k] - before[k]
+			if d > 9 {
+				d = 9
+			}
+			sb.WriteByte(byte('0' + d))
+		}
+		return sb.String()
 	}
 	var obs []string
 	for i, op := range sc.ops {
 		b0 := atomic.LoadInt64(&t.begins)
+		a0, s0 := t.perSink()
 		r := "-"
 		ok := callWithin(8*time.Second, func() {
 			switch op[0] {
@@ -264,9 +328,9 @@ func runC18Script(sc c18Script, countGoroutines bool) (string, error) {
 				t.mu.Unlock()
 				r = last[strings.LastIndex(last, ":")+1:]
 			case 'A':
-				s.AddSink(t.mkSink(s, 'p', 0))
+				t.addSink(s, false, 'p', 0)
 			case 'B':
-				s.AddSyncSink(t.mkSink(s, 'p', 0))
+				t.addSink(s, true, 'p', 0)
 			case 'G':
 				_ = s.GetStats()
 			case 'T':
@@ -280,7 +344,12 @@ func runC18Script(sc c18Script, countGoroutines bool) (string, error) {
 			obs = append(obs, "to")
 			break
 		}
-		t.settle()
+		t.settle(s)
+		if op == "X" {
+			// which of the sinks registered before this Stop were invoked because of it (the CEP flush), and how often
+			a1, s1 := t.perSink()
+			r += ":" + digits(a0, a1) + "/" + digits(s0, s1)
+		}
 		obs = append(obs, fmt.Sprintf("%d:%s", atomic.LoadInt64(&t.begins)-b0, r))
 	}
 	callWithin(8*time.Second, func() { s.Stop() })
@@ -300,14 +369,29 @@ func genC18Script(rng *RNG, kind, strat string) c18Script {
 		sc.sinks = append(sc.sinks, string("as"[rng.Intn(2)])+string(behs[rng.Intn(len(behs))]))
 	}
 	direct := c18IsDirect(kind)
+	if kind == "cepopen" {
+		// the flush at Stop calls every sink inline, in registration order: make lists of 2-5 sinks in which a
+		// panicking or re-entrant one sits at a random position (often first)
+		sc.sinks = nil
+		for i, n := 0, 2+rng.Intn(4); i < n; i++ {
+			b := "pppxxasg"[rng.Intn(8)]
+			if i == 0 && rng.Bool() {
+				b = 'x'
+			}
+			sc.sinks = append(sc.sinks, string("as"[rng.Intn(2)])+string(b))
+		}
+	}
 	val := func() string {
 		switch rng.Intn(8) {
 		case 0:
 			return "-1"
 		case 1:
-			if kind != "global1" {
+			if kind != "global1" && kind != "cepopen" {
 				return "-7"
 			}
+		}
+		if kind == "cepopen" && rng.Intn(5) == 0 {
+			return "-1"
 		}
 		return strconv.Itoa(rng.Intn(50))
 	}
@@ -476,6 +560,95 @@ func runC18Random(kind, strat string, seed uint64) (string, error) {
 	return fmt.Sprintf("C18 R %s %s %d # %s", kind, strat, seed, strings.Join(t.ev, " ")), nil
 }
 
+// c18Gate lets the harness decide when each invocation of a sink returns.
+type c18Gate struct {
+	mu      sync.Mutex
+	entered []chan struct{}
+	open    bool
+}
+
+func (g *c18Gate) enter() chan struct{} {
+	ch := make(chan struct{})
+	g.mu.Lock()
+	if g.open {
+		close(ch)
+	} else {
+		g.entered = append(g.entered, ch)
+	}
+	g.mu.Unlock()
+	return ch
+}
+
+// releaseInOrder lets the invocations return one by one in the order in which they began (also those that begin while
+// it is at work), then opens the gate for good.
+func (g *c18Gate) releaseInOrder(gap time.Duration) {
+	for i := 0; ; i++ {
+		g.mu.Lock()
+		if i >= len(g.entered) {
+			g.open = true
+			g.mu.Unlock()
+			return
+		}
+		ch := g.entered[i]
+		g.mu.Unlock()
+		close(ch)
+		time.Sleep(gap)
+	}
+}
+
+// saturated sink pool + Stop while the overflow invocations are still running
+func runC18Saturated(rng *RNG, strat string) (string, error) {
+	workers, poolCap := 1+rng.Intn(2), 1+rng.Intn(2)
+	rows := workers + poolCap + 1 + rng.Intn(3)
+	base := runtime.NumGoroutine()
+	s, err := c18New("direct", strat, 16, poolCap, workers, 0)
+	if err != nil {
+		return "", err
+	}
+	t := newC18Trace()
+	g := &c18Gate{}
+	t.cnt = append(t.cnt, 0)
+	gated := func(r []map[string]any) {
+		t.sinkBegin(0)
+		defer t.sinkEnd()
+		<-g.enter()
+	}
+	s.AddSink(gated)
+	if rng.Bool() {
+		s.AddSink(t.mkSink(s, "px"[rng.Intn(2)], 0))
+	}
+	if rng.Bool() {
+		t.addSink(s, true, 'p', 0)
+	}
+	for i := 0; i < rows; i++ {
+		s.Emit(c18Row(i, i))
+		time.Sleep(3 * time.Millisecond)
+	}
+	// wait until no further invocation begins: workers blocked, queue full, overflow invocation(s) blocked
+	last, stable := int64(-1), 0
+	for i := 0; i < 200 && stable < 6; i++ {
+		time.Sleep(3 * time.Millisecond)
+		if b := atomic.LoadInt64(&t.begins); b == last {
+			stable++
+		} else {
+			last, stable = b, 0
+		}
+	}
+	var wg sync.WaitGroup
+	wg.Add(1)
+	go func() { defer wg.Done(); t.stop(s, 1) }()
+	time.Sleep(10 * time.Millisecond)
+	g.releaseInOrder(time.Duration(8+rng.Intn(8)) * time.Millisecond)
+	if !callWithin(8*time.Second, wg.Wait) {
+		t.add("to")
+	}
+	time.Sleep(20 * time.Millisecond) // invocations that outlive Stop show up as ke (or kb) after sr
+	t.add(fmt.Sprintf("gr:%d:%d", base, waitGoroutines(base, 2*time.Second)))
+	t.mu.Lock()
+	defer t.mu.Unlock()
+	return fmt.Sprintf("C18 P %s %d %d %d # %s", strat, workers, poolCap, rows, strings.Join(t.ev, " ")), nil
+}
+
 // two overlapping Stop calls: the second returns at once although the first is still waiting for a sink
 func runC18Loser() (string, error) {
 	s, err := c18New("direct", "drop", 16, 4, 2, 0)
@@ -485,8 +658,9 @@ func runC18Loser() (string, error) {
 	t := newC18Trace()
 	entered := make(chan struct{}, 1)
 	release := make(chan struct{})
+	t.cnt = append(t.cnt, 0)
 	s.AddSyncSink(func(rows []map[string]any) {
-		t.sinkBegin()
+		t.sinkBegin(0)
 		defer t.sinkEnd()
 		entered <- struct{}{}
 		<-release
@@ -521,10 +695,12 @@ func c18IsStuck(line string) bool {
 }
 
 func runC18(tier string, seed uint64, o *Out) error {
-	rng := NewRNG(seed)
+	// NewRNG(seed+1) is NewRNG(seed) advanced by one draw (the state is seed*gamma + c and a draw adds gamma), so
+	// consecutive seeds would replay almost the same cases: hash the seed first
+	rng := NewRNG(NewRNG(seed).Next())
 	stuck := 0
 	strategies := []string{"drop", "block", "expand"}
-	scriptKinds := []string{"direct", "analytic", "counting1", "global1"}
+	scriptKinds := []string{"direct", "analytic", "counting1", "global1", "cepopen"}
 	randKinds := []string{"direct", "analytic", "cep", "tumbling", "sliding", "session", "tumblingE", "slidingE", "sessionE", "counting", "global"}
 	nScript, nRand := 8, 5
 	if tier == "thorough" {
@@ -581,7 +757,7 @@ func runC18(tier string, seed uint64, o *Out) error {
 	}
 	time.Sleep(50 * time.Millisecond)
 	// (2) a few scripts alone, with goroutine accounting
-	for i := 0; i < 4; i++ {
+	for i := 0; i < len(scriptKinds); i++ {
 		sc := genC18Script(rng, scriptKinds[i%len(scriptKinds)], strategies[i%3])
 		l, err := runC18Script(sc, true)
 		if err != nil {
@@ -614,6 +790,28 @@ func runC18(tier string, seed uint64, o *Out) error {
 					o.Count("aborted_after_stuck_cases")
 					return nil
 				}
+			}
+		}
+	}
+	// (3b) saturated sink pool, Stop during the overflow invocations
+	nSat := 4
+	if tier == "thorough" {
+		nSat = 20
+	}
+	for _, st := range strategies {
+		for i := 0; i < nSat; i++ {
+			l, err := runC18Saturated(rng, st)
+			if err != nil {
+				return err
+			}
+			o.Line("%s", l)
+			o.Count("saturated_pool/" + st)
+			if c18IsStuck(l) {
+				stuck++
+			}
+			if stuck >= c18MaxStuck {
+				o.Count("aborted_after_stuck_cases")
+				return nil
 			}
 		}
 	}
